@@ -129,6 +129,7 @@ struct Scene {
 	s1: Option<StaticSoundHandle>,
 	s2: Option<StreamingSoundHandle<String>>,
 	t: Option<TrackHandle>,
+	nested: Option<TrackHandle>,
 	clock: Option<ClockHandle>,
 	tweener: Option<TweenerHandle>,
 	last_idx: i64,
@@ -187,7 +188,7 @@ fn run_handles(sc: &J, t: &mut Tracer) {
 	let mut sim = Sim::basic();
 	let mut init = Map::new();
 	let mut jump = Map::new();
-	let mut s = Scene { sim: Sim::basic(), s1: None, s2: None, t: None, clock: None, tweener: None, last_idx: -1 };
+	let mut s = Scene { sim: Sim::basic(), s1: None, s2: None, t: None, nested: None, clock: None, tweener: None, last_idx: -1 };
 	std::mem::swap(&mut s.sim, &mut sim);
 	drop(sim);
 	let level = |init: &mut Map<String, J>, jump: &mut Map<String, J>, k: &str, v: J| {
@@ -230,6 +231,26 @@ fn run_handles(sc: &J, t: &mut Tracer) {
 					level(&mut init, &mut jump, k, json!("Playing"));
 				}
 				level(&mut init, &mut jump, "c.tick", json!("off"));
+			}
+		}
+		"P" => {
+			// a sub-track whose pause has settled, with a sound and a nested track below it
+			let mut track = s.sim.manager.add_sub_track(TrackBuilder::new()).unwrap();
+			let data = StaticSoundData {
+				sample_rate: RATE,
+				frames: dc_frames(64),
+				settings: StaticSoundSettings::new().loop_region(..),
+				slice: None,
+			};
+			s.s1 = Some(track.play(data).unwrap());
+			s.nested = Some(track.add_sub_track(TrackBuilder::new()).unwrap());
+			let _ = s.sim.callback(NF);
+			track.pause(tw(0));
+			let _ = s.sim.callback(NF);
+			let _ = s.sim.callback(NF);
+			s.t = Some(track);
+			for k in ["ps.run", "pn.run"] {
+				level(&mut init, &mut jump, k, json!("Playing"));
 			}
 		}
 		"S" => {
@@ -291,6 +312,14 @@ fn run_handles(sc: &J, t: &mut Tracer) {
 						let h = s.t.as_mut().unwrap();
 						if p { h.pause(tw(d)) } else { h.resume(tw(d)) }
 					}
+					"ps.run" => {
+						let h = s.s1.as_mut().unwrap();
+						if v.as_str() == Some("Pausing") { h.pause(tw(0)) } else { h.resume(tw(0)) }
+					}
+					"pn.run" => {
+						let h = s.nested.as_mut().unwrap();
+						if v.as_str() == Some("Pausing") { h.pause(tw(0)) } else { h.resume(tw(0)) }
+					}
 					"c.tick" => {
 						let c = s.clock.as_mut().unwrap();
 						if v.as_str() == Some("on") { c.start() } else { c.pause() }
@@ -337,6 +366,10 @@ fn run_handles(sc: &J, t: &mut Tracer) {
 						obs.insert("s2.run".into(), json!(guarded(|| state_name(s.s2.as_ref().unwrap().state())).unwrap_or("panic")));
 						obs.insert("t.run".into(), json!(guarded(|| track_state_name(s.t.as_ref().unwrap().state())).unwrap_or("panic")));
 						obs.insert("c.tick".into(), json!(if s.clock.as_ref().unwrap().ticking() { "on" } else { "off" }));
+					}
+					"P" => {
+						obs.insert("ps.run".into(), json!(guarded(|| state_name(s.s1.as_ref().unwrap().state())).unwrap_or("panic")));
+						obs.insert("pn.run".into(), json!(guarded(|| track_state_name(s.nested.as_ref().unwrap().state())).unwrap_or("panic")));
 					}
 					"S" => {
 						let hd = hear(&res.out);
